@@ -8,17 +8,36 @@ META = dict(
     technique="Coq proof (invariant over all file-system call prefixes incl. torn calls) + differential correspondence of call traces and recovered contents, crash snapshots taken through the cfg(agdb_verif) hook",
     level_text="Machine-checked theorem C01_recover_restores: for every committed content, every list of storage-data calls (write/resize/flush; writes start inside the file or at its end) "
                "and every crash cut (k completed file-system calls + the next one torn after j bytes, on the data file or on the log file) recovery yields exactly the content at the last completed flush, "
-               "with an empty log; plus C01_repair_torn_tail and witnesses that each of the three repaired defects broke it. Tie to /repo: generated Storage programs (insert, insert-at incl. beyond the end, "
+               "with an empty log; plus C01_repair_torn_tail and witnesses that each of the three repaired defects broke it. C01_guarded_recovery_agrees: under the same hypotheses recovery WITH the position guard of "
+               "apply_wal_record (a log record beyond the current end of the file is an error; model recover_g) succeeds and returns the same state, i.e. the guard never fires on a log the storage wrote; "
+               "C01_guard_fires: it does on a record beyond the end. C01_recovery_restartable: recovery modelled as a sequence of file-system calls (cut the torn tail; per record newest first guard, undo, "
+               "remove the record from the log; clear) is itself crash safe: after a crash cut of normal operation and ANY number of recoveries each interrupted at any of its calls (incl. a torn undo write) the next "
+               "recovery completes without the guard firing and yields the content of the last completed flush; C01_recovery_calls_agree: on all files the call sequence ends in what the recovery function returns; "
+               "C01_simple_guard_refuted: with the guard but WITHOUT removing undone records an interrupted recovery leaves a file that can never be opened again (why the first version of the repair was rejected). "
+               "The check reads off the source tree whether the guard is present and compares with recover_g / recovery_calls true or recover / recovery_calls false accordingly. Tie to /repo: generated Storage programs (insert, insert-at incl. beyond the end, "
                "replace, resize, move, remove, optimize, nested transactions, storage dropped with an open transaction) run on the real Storage<FileStorage> and Storage<FileStorageMemoryMapped>; the hook snapshots both files before every "
                "mutating call (+ torn variants); every snapshot is recovered by the real FileStorage::new and compared with the committed bytes (direct oracle); the implementation's call trace and recovered "
-               "contents are compared with the extracted model; the hypothesis 'no write starts beyond the end' is checked on every StorageData call the real Storage issued.",
+               "contents are compared with the extracted model; the hypothesis 'no write starts beyond the end' is checked on every StorageData call the real Storage issued; "
+               "snapshots with a damaged log (positions moved, garbage records) are recovered by the real code and compared with the model (bytes or error); the file-system calls the real recovery issues "
+               "(FileStorage::new on sampled snapshots and damaged logs, Drop rolling back an open transaction) are compared with the model's recovery_calls; snapshots taken INSIDE the rollback of Drop "
+               "(recovery interrupted) are recovered by the real code (direct oracle: committed bytes) and by the model.",
     design_ref="DESIGN.md §5 C01",
     level_note="Trusted: Coq kernel, extraction, OCaml driver, Rust harness incl. its snapshot/torn-copy routine; std::fs semantics; calls persist in issue order and torn writes are prefixes (fsync ordering is outside "
                "the code's own contract). The lifting 'every Storage operation sequence issues only well-positioned calls' is checked on the generated programs, not proved.",
 )
 
 
+def detect_guard():
+    """does the source tree contain the position guard of FileStorage::apply_wal_record (fixes/C07-wal-position.diff)?
+    Then FileStorage::new corresponds to the model's recover_g, otherwise to recover."""
+    try:
+        return "beyond the end of the file" in open(os.path.join(vlib.REPO, "agdb", "src", "storage", "file_storage.rs")).read()
+    except OSError:
+        return False
+
+
 def run(ctx):
+    guard = detect_guard()
     n, steps = (120, 14) if ctx.tier == "quick" else (1000, 30)
     exe, dlog = vlib.build_driver()
     if exe is None:
@@ -27,11 +46,19 @@ def run(ctx):
     if tdir is None:
         raise RuntimeError("harness build failed: " + blog)
     w = ctx.workdir
-    rc, out = vlib.sh([os.path.join(tdir, "hx_core"), "c01", "--seed", str(ctx.seed), "--n", str(n), "--steps", str(steps), "--out", w], timeout=3000)
+    rc, out = vlib.sh([os.path.join(tdir, "hx_core"), "c01", "--seed", str(ctx.seed), "--n", str(n), "--steps", str(steps), "--guard", "1" if guard else "0", "--out", w], timeout=3000)
     if rc != 0:
         raise RuntimeError("harness failed: " + out[-2000:])
     rc, err = run_driver(exe, os.path.join(w, "cases.txt"), os.path.join(w, "model.txt"))
     cases, model, impl = (read_lines(os.path.join(w, f)) for f in ("cases.txt", "model.txt", "impl.txt"))
+    if len(cases) == len(model) == len(impl):
+        # unguarded tree: a damaged log with a record beyond the current end of the data extends the file sparsely, which
+        # FileWal.v does not model (OpenFile.v / C07 does): the model answers `beyond`, nothing to compare
+        keep = [i for i in range(len(cases)) if not (model[i] == "beyond" and not guard)]
+        skipped = len(cases) - len(keep)
+        cases, model, impl = ([x[i] for i in keep] for x in (cases, model, impl))
+    else:
+        skipped = 0
     dis = diff_lines(cases, model, impl, limit=8)
     failures = [dict(cls=l.split(" ")[0], what=l[:5000]) for l in read_lines(os.path.join(w, "oracle.txt"))]
     dist, ev, nt, samples = merge_stats([os.path.join(w, "stats.json")])
@@ -39,7 +66,13 @@ def run(ctx):
         evaluations=ev, distinct_nontrivial=nt, samples=samples, dist=dist,
         rule="%d generated storage programs (<= %d operations, value sizes around the 16-byte split threshold, nesting <= 4, half of them dropped with an open transaction), 2/3 on FileStorage and 1/3 on "
              "FileStorageMemoryMapped; evaluations = crash snapshots recovered by the real code (every mutating call + up to 4 torn prefixes per log append and 3 per data write); non-trivial = program with "
-             "a nested transaction and more than 20 snapshots; per program the full call trace and 16 sampled cuts are also compared with the model" % (n, steps),
+             "a nested transaction and more than 20 snapshots; per program the full call trace and 16 sampled cuts are also compared with the model "
+             "(%s); plus per program up to 6 snapshots whose LOG IS DAMAGED (a record's position moved inside the file / to its end / up to 300 bytes beyond it, a garbage "
+             "record appended, prepended, or alone) recovered by the real FileStorage::new and compared with the model's recovery of the same files (bytes | error) and its call sequence; per program the "
+             "call sequence of the real recovery on 6 sampled snapshots and of Drop, and 6 snapshots taken inside Drop's rollback recovered by the model%s"
+             % (n, steps, "position guard detected in the tree: the model is recover_g" if guard else "no position guard in the tree: the model is recover",
+                "" if guard else "; %d of them lie beyond the end and are not compared on this unguarded tree" % skipped),
         failures=failures, disagreements=dis,
         assumptions=["torn writes are prefixes; file-system calls persist in issue order"],
+        notes=["position guard of apply_wal_record in the tree: %s" % ("yes (model: recover_g)" if guard else "no (model: recover)")],
     )
